@@ -21,13 +21,13 @@ def c02_post(m, env):
 REGISTRY = {
     "C19": {"level": "exploration", "tiers": {
         "quick": {"workers": 8, "n_hist": 1200, "n_neg": 64},
-        "thorough": {"workers": 16, "n_hist": 60000, "n_neg": 800}}},
+        "thorough": {"workers": 16, "n_hist": 2000000, "n_neg": 8000}}},
     "C14": {"level": "exploration", "tiers": {
         "quick": {"workers": 8, "n_files": 6000},
-        "thorough": {"workers": 16, "n_files": 60000}}},
+        "thorough": {"workers": 16, "n_files": 1800000}}},
     "C11": {"level": "exploration", "tiers": {
         "quick": {"workers": 8, "n_hist": 640},
-        "thorough": {"workers": 16, "n_hist": 40000}}},
+        "thorough": {"workers": 16, "n_hist": 160000}}},
     "C12": {"level": "exploration", "tiers": {
         "quick": {"workers": 8, "n_hist": 160},
         "thorough": {"workers": 16, "n_hist": 12000}}},
@@ -36,28 +36,28 @@ REGISTRY = {
         "thorough": {"workers": 16, "n_hist": 30000}}},
     "C06": {"level": "exploration", "tiers": {
         "quick": {"workers": 8, "n_hist": 480},
-        "thorough": {"workers": 16, "n_hist": 30000}}},
+        "thorough": {"workers": 16, "n_hist": 120000}}},
     "C13": {"level": "exploration", "tiers": {
         "quick": {"workers": 8, "n_hist": 480},
-        "thorough": {"workers": 16, "n_hist": 30000}}},
+        "thorough": {"workers": 16, "n_hist": 180000}}},
     "C03": {"level": "exploration", "tiers": {
         "quick": {"workers": 8, "n_hist": 480},
-        "thorough": {"workers": 16, "n_hist": 30000}}},
+        "thorough": {"workers": 16, "n_hist": 90000}}},
     "C04": {"level": "exploration", "tiers": {
         "quick": {"workers": 8, "n_hist": 480, "n_iso": 8},
-        "thorough": {"workers": 16, "n_hist": 30000, "n_iso": 64}}},
+        "thorough": {"workers": 16, "n_hist": 90000, "n_iso": 64}}},
     "C10": {"level": "exploration", "tiers": {
         "quick": {"workers": 8, "n_hist": 480},
-        "thorough": {"workers": 16, "n_hist": 30000}}},
+        "thorough": {"workers": 16, "n_hist": 90000}}},
     "C16": {"level": "exploration", "tiers": {
         "quick": {"workers": 8, "n_hist": 400, "n_map": 320},
-        "thorough": {"workers": 16, "n_hist": 24000, "n_map": 16000}}},
+        "thorough": {"workers": 16, "n_hist": 96000, "n_map": 64000}}},
     "C18": {
         "level": "exploration",
         "tiers": {
             "quick": {"workers": 8, "n_pairs": 480,
                       "perturbations_per_case": 14},
-            "thorough": {"workers": 16, "n_pairs": 12000,
+            "thorough": {"workers": 16, "n_pairs": 24000,
                          "perturbations_per_case": 40},
         },
     },
@@ -75,7 +75,7 @@ REGISTRY = {
         "level": "exploration",
         "tiers": {
             "quick": {"workers": 8, "n_refs": 1000},
-            "thorough": {"workers": 16, "n_refs": 30000},
+            "thorough": {"workers": 16, "n_refs": 240000},
         },
     },
     "C02": {
@@ -89,36 +89,37 @@ REGISTRY = {
         ],
         "tiers": {
             "quick": {"workers": 8, "n_spec": 800, "python_scale": 0.25},
-            "thorough": {"workers": 16, "n_spec": 20000, "python_scale": 0.5},
+            "thorough": {"workers": 16, "n_spec": 200000, "python_scale": 0.5},
         },
     },
     "C01": {
         "level": "exploration",
         "tiers": {
             "quick": {"workers": 8, "n_spec": 1200},
-            "thorough": {"workers": 16, "n_spec": 40000},
+            "thorough": {"workers": 16, "n_spec": 400000},
         },
     },
     "C07": {
         "level": "exploration",
         "tiers": {
             "quick": {"workers": 8, "n_rt": 3200},
-            "thorough": {"workers": 16, "n_rt": 60000},
+            "thorough": {"workers": 16, "n_rt": 300000},
         },
     },
     "C08": {
         "level": "exploration",
         "pre": javax.pre, "post": javax.post,
         "tiers": {
-            "quick": {"workers": 8, "n_fmt": 2400},
-            "thorough": {"workers": 16, "n_fmt": 40000},
+            "quick": {"workers": 8, "n_fmt": 2400, "java_max_per_worker": 6000},
+            "thorough": {"workers": 16, "n_fmt": 200000,
+                         "java_max_per_worker": 25000},
         },
     },
     "C15": {
         "level": "exploration",
         "tiers": {
             "quick": {"workers": 8, "enum_len": 8, "n_gen": 1600},
-            "thorough": {"workers": 16, "enum_len": 10, "n_gen": 40000},
+            "thorough": {"workers": 16, "enum_len": 11, "n_gen": 400000},
         },
     },
 }
